@@ -166,6 +166,31 @@ func c09Scenarios() []*concScenario {
 		closeSession(x, s)
 	}, sessionPost)
 
+	// H10: purge about to delete an aged address || the packet loop re-binding that address to another MAC || reader
+	add("H10", 4, func(x *concExec) {
+		concReset()
+		s, _ := concSession()
+		x.data["session"] = s
+		parseNotify(s, frame4(env.MAC1, ip4a))
+		parseNotify(s, frame6(env.MAC1, lla1)) // the MAC entry survives the deletion of its IPv4 address
+		vsched.Advance(int64(packet.DefaultOfflineDeadline + time.Minute))
+		vsched.WaitIdle() // c1/a offline
+		vsched.Advance(int64(packet.DefaultPurgeDeadline + time.Minute))
+		// purge (delete c1/a) now races with the threads
+		threads(
+			func() {
+				parseNotify(s, frame4(env.MAC2, ip4a)) // c2 claims the address that purge is about to delete
+			},
+			func() {
+				s.FindIP(ip4a)
+				s.FindByMAC(env.MAC2)
+			},
+		)
+		vsched.WaitIdle()
+		x.observe(fmt.Sprintf("hosts=%d notes=%d", len(s.GetHosts()), drain(s)))
+		closeSession(x, s)
+	}, sessionPost)
+
 	// H3: address claimed by another MAC || readers || DHCP update and offers
 	add("H3", 3, func(x *concExec) {
 		concReset()
@@ -243,6 +268,35 @@ func c09Scenarios() []*concScenario {
 			},
 		)
 		h.Close()
+		vsched.WaitIdle()
+		x.observe(fmt.Sprintf("hunt=%d", h.VerifHuntLen()))
+		closeSession(x, s)
+	}, sessionPost)
+
+	// H5c: icmp6 handler with an active hunt: Close || a router advertisement on the packet loop
+	add("H5c", 3, func(x *concExec) {
+		concReset()
+		s, _ := concSession()
+		x.data["session"] = s
+		h, _ := icmp.New6(s)
+		target := packet.Addr{MAC: env.MAC1, IP: lla1}
+		ra := raFrame(env.RouterMAC, env.RouterLLA, 0x40, 1800, refnet.NDPOption(1, env.RouterMAC))
+		if f, err := s.Parse(append([]byte(nil), ra...)); err == nil {
+			h.ProcessPacket(f) // the router is learned
+		}
+		h.StartHunt(target)
+		icmp.VerifReset() // the next router advertisement is examined again (the handler looks at one in four)
+		threads(
+			func() {
+				if f, err := s.Parse(append([]byte(nil), ra...)); err == nil {
+					h.ProcessPacket(f)
+					s.Notify(f)
+				}
+			},
+			func() {
+				h.Close()
+			},
+		)
 		vsched.WaitIdle()
 		x.observe(fmt.Sprintf("hunt=%d", h.VerifHuntLen()))
 		closeSession(x, s)
@@ -369,7 +423,7 @@ func raFrame(mac []byte, src netip.Addr, flags byte, lifetime uint16, options []
 
 func c09Run(c *core.Ctx, args []string) {
 	c.Res.Level = "model_checking"
-	c.Res.Rule = "stateless DFS over every schedule of each harness H1..H9 (2-3 API/packet-loop threads plus the goroutines the code starts itself plus the clock) up to the deviation bound (thorough: each harness also with its threads started in the two rotated orders); every execution runs to completion under the controlled scheduler; oracles: no deadlock, no panic, no data race (race detector build, scheduler hand-offs invisible to it), table invariant at the final quiescent point, no goroutine left after Close. distinct = distinct observation vectors"
+	c.Res.Rule = "stateless DFS over every schedule of each harness H1..H10, H5c (2-3 API/packet-loop threads plus the goroutines the code starts itself plus the clock) up to the deviation bound (thorough: each harness also with its threads started in the two rotated orders); every execution runs to completion under the controlled scheduler; oracles: no deadlock, no panic, no data race (race detector build, scheduler hand-offs invisible to it), table invariant at the final quiescent point, no goroutine left after Close. distinct = distinct observation vectors"
 	c.Res.Assumptions = []string{"scheduling points at every lock, channel, spawn, timer and connection write of the instrumented packages; unsynchronised accesses are caught by the race detector on the explored schedules rather than interleaved", "bounded by the deviation (preemption) bound and the clock horizon; at most 3 harness threads"}
 	name := strings.TrimSuffix(c.Job, ".race")
 	bound := 2 // both tiers; the thorough tier adds the rotated thread orders of every harness
